@@ -1,7 +1,7 @@
 (* C16 — Matchers: parse/print round-trip, parser agreement, and exact match semantics.
    Only statements here; proofs are `exact <lemma>` from Proofs/MatchersProofs.v (semantics) and
    Proofs/MatcherSyntaxProofs.v (printer, parsers, fallback). *)
-From AM Require Import Base.Prelude Model.Matchers Proofs.MatchersProofs.
+From AM Require Import Base.Prelude Model.Matchers Model.MatcherSyntax Proofs.MatchersProofs Proofs.MatcherSyntaxProofs.
 
 (* ---------- exact match semantics (for every regexp oracle [re] = Go's anchored full match) ---------- *)
 
@@ -48,6 +48,103 @@ Proof. exact (m_matches_neg re t n p v). Qed.
 Theorem c16_order_irrelevant re ms ms' ls : Permutation ms ms' -> ms_matches re ms ls = ms_matches re ms' ls.
 Proof. exact (ms_matches_perm re ms ms' ls). Qed.
 
+(* ---------- parsers: total, no panic, no loop (for ALL byte strings and ALL library tables) ---------- *)
+
+(* The UTF-8 lexer/parser state machine (parse.Matchers before its deferred recover) never reaches one of its
+   panic statements and never exhausts its fuel (length of the input + 6 steps): it terminates with Ok or Err. *)
+Theorem c16_utf8_parser_never_panics_or_loops is_space compiles s :
+  utf8_parse_raw is_space compiles s <> Panic /\ utf8_parse_raw is_space compiles s <> Err "fuel".
+Proof. exact (proj1 (fine_iff _) (utf8_parse_raw_fine is_space compiles s)). Qed.
+
+(* ... so the recover in parse.Matchers is dead code: its result is the parser's own. *)
+Theorem c16_recover_never_fires is_space compiles s :
+  utf8_matchers is_space compiles s = utf8_parse_raw is_space compiles s.
+Proof. exact (utf8_matchers_eq_raw is_space compiles s). Qed.
+
+(* strconv.Unquote (called on quoted tokens; its failure is reported by the parser as "invalid input", so it is
+   stated separately) terminates within its fuel on every input *)
+Theorem c16_unquote_total s : go_unquote s <> Panic /\ go_unquote s <> Err "fuel".
+Proof. exact (proj1 (fine_iff _) (go_unquote_fine s)). Qed.
+
+(* every entry point of matcher/compat, in classic, UTF-8-strict and fallback mode, on every input *)
+Theorem c16_no_input_makes_a_parser_panic_or_loop is_space compiles md s :
+  (compat_matchers is_space compiles md s <> Panic /\ compat_matchers is_space compiles md s <> Err "fuel") /\
+  (compat_matcher is_space compiles md s <> Panic /\ compat_matcher is_space compiles md s <> Err "fuel").
+Proof.
+  exact (conj (proj1 (fine_iff _) (compat_matchers_fine is_space compiles md s))
+              (proj1 (fine_iff _) (compat_matcher_fine is_space compiles md s))).
+Qed.
+
+(* ---------- fallback mode: which result is returned, given the two parsers' results ---------- *)
+(* n = matcher/parse result, c = pkg/labels (classic) result. Accepted by both: the classic result (which is the
+   common one when they agree); accepted only by classic: still accepted, with classic's result; accepted only by
+   the UTF-8 parser: its result; rejected by both: an error (classic's). *)
+Theorem c16_fallback_spec {A} `{EqDecision A} (n c : res A) :
+  match n, c with
+  | _, Panic => fallback n c = Panic
+  | Ok nv, Ok cv => fallback n c = Ok cv /\ (nv = cv -> fallback n c = Ok nv)
+  | Ok nv, Err _ => fallback n c = Ok nv
+  | _, Ok cv => fallback n c = Ok cv
+  | _, Err ce => fallback n c = Err ce
+  end.
+Proof. exact (fallback_spec n c). Qed.
+
+Theorem c16_fallback_classic_only_still_accepted {A} `{EqDecision A} (n : res A) (cv : A) :
+  fallback n (Ok cv) = Ok cv.
+Proof. exact (fallback_classic_only n cv). Qed.
+
+(* the model's fallback entry points are this combinator applied to the two parsers (definitional) *)
+Theorem c16_fallback_is_combinator is_space compiles s :
+  compat_matchers is_space compiles Fallback s
+  = fallback (utf8_matchers is_space compiles s) (classic_matchers is_space compiles s).
+Proof. reflexivity. Qed.
+
+(* ---------- print / parse round-trip ---------- *)
+(* PARTIAL. Proved for the matchers Matcher.String prints in its OpenMetrics form: non-empty valid-UTF-8 name with
+   no reserved rune (so the name is printed bare), ANY valid-UTF-8 value (quotes, backslashes, newlines, braces,
+   commas, operators, blanks, NUL, multi-byte runes, ...), all four operators (regexp values must compile), for
+   every is_space / is_print / compiles table; single matcher and braced list of any length, UTF-8 parser.
+   Missing (checked on every run by the harness oracle and by prop_case, not proved):
+   (1) names containing a reserved rune, which are printed with strconv.Quote on both sides (needs
+       Unquote (Quote s) = s for valid UTF-8 s, given is_print LF = false);
+   (2) fallback and classic mode: that the classic parser, on a printed text, either rejects it or returns the same
+       matchers (c16_fallback_roundtrip_partial reduces the fallback clause to exactly that), and accepts it when
+       the name is a classic label name. *)
+Theorem c16_roundtrip_partial is_space is_print compiles m :
+  plain is_space compiles m ->
+  utf8_matchers is_space compiles (print_b is_space is_print m) = Ok [m].
+Proof. exact (roundtrip_single is_space is_print compiles m). Qed.
+
+Theorem c16_roundtrip_list_partial is_space is_print compiles ms :
+  Forall (plain is_space compiles) ms ->
+  utf8_matchers is_space compiles (print_list_b is_space is_print ms) = Ok ms.
+Proof. exact (roundtrip_list is_space is_print compiles ms). Qed.
+
+Theorem c16_fallback_roundtrip_partial is_space is_print compiles ms :
+  Forall (plain is_space compiles) ms ->
+  (forall c, classic_matchers is_space compiles (print_list_b is_space is_print ms) = Ok c -> c = ms) ->
+  compat_matchers is_space compiles Fallback (print_list_b is_space is_print ms) = Ok ms.
+Proof.
+  intros Hp Hc. simpl. rewrite (roundtrip_list is_space is_print compiles ms Hp).
+  exact (fallback_roundtrip_cond _ ms (classic_matchers_no_panic is_space compiles _) Hc).
+Qed.
+
+(* the sub-class, spelled out *)
+Theorem c16_plain_meaning is_space compiles m :
+  plain is_space compiles m <->
+  b_name m <> [] /\ valid_utf8 (b_name m) = true /\
+  existsb (fun x => is_reserved is_space (fst x)) (decode_all (b_name m)) = false /\
+  valid_utf8 (b_value m) = true /\ (is_regex (b_type m) = true -> compiles (b_value m) = true).
+Proof. reflexivity. Qed.
+
+(* valid UTF-8 is what Go means by it: decoding and re-encoding every rune gives back the bytes *)
+Theorem c16_valid_utf8_canonical s :
+  valid_utf8 s = true -> raw (decode_all s) = s /\ Forall (fun x => encode_rune (fst x) = snd x) (decode_all s).
+Proof.
+  intros H. split; [exact (raw_decode_all s)|].
+  eapply Forall_impl; [exact (valid_decode_canon s H)|]. intros [r bs] Hc. exact (encode_decode r bs Hc).
+Qed.
+
 (* ---------- non-vacuity ---------- *)
 Example c16_matches_nonvacuous :
   let re := re_of_table [("a.*", "abc", true); ("a.*", "", false)] in
@@ -57,5 +154,29 @@ Example c16_matches_nonvacuous :
   mset_matches re [[mkM MEq "x" "2"]; [mkM MEq "x" "1"]] [("x", "1")] = true.
 Proof. vm_compute. repeat split. Qed.
 
+(* a value with every awkward byte, a multi-byte name, a regexp operator: in the sub-class, and round-trips *)
+Definition ex_sp (r : Z) : bool := (r =? 32) || (r =? 9) || (r =? 10) || (r =? 13) || (r =? 8232).
+Definition ex_m := mkBM MNre (bytes_of_string "日本.x") (bytes_of_string (bs [34;92;10;123;125;44;61;33;126;39;96;32;9;0;195;169;226;128;168]%N)).
+Example c16_roundtrip_nonvacuous :
+  (plain ex_sp (fun _ => true) ex_m /\ plain ex_sp (fun _ => true) (mkBM MEq [97] [])) /\
+  utf8_matchers ex_sp (fun _ => true) (print_list_b ex_sp (fun _ => true) [ex_m; mkBM MEq [97] []]) = Ok [ex_m; mkBM MEq [97] []].
+Proof. split; [split; (split; [discriminate|vm_compute; repeat split; reflexivity])|vm_compute; reflexivity]. Qed.
+(* inputs on which the two parsers accept and differ, classic wins: foo=b\ar is b\ar (classic) vs. error (UTF-8);
+   an input rejected by both is an error *)
+Example c16_fallback_nonvacuous :
+  let sp := ex_sp in let cp := fun _ : list Z => true in
+  utf8_matchers sp cp (bytes_of_string "foo=b\ar") = Err "expected-comma-or-close-brace" /\
+  compat_matchers sp cp Fallback (bytes_of_string "foo=b\ar") = Ok [mkBM MEq [102;111;111] [98;92;97;114]] /\
+  utf8_matchers sp cp (bytes_of_string "foo=""b\nar""") <> classic_matchers sp cp (bytes_of_string "foo=""b\nar""") /\
+  compat_matchers sp cp Fallback (bytes_of_string "foo=""b\nar""") = classic_matchers sp cp (bytes_of_string "foo=""b\nar""") /\
+  compat_matchers sp cp Fallback (bytes_of_string "=") = Err "bad-format".
+Proof. vm_compute. repeat split; try reflexivity. discriminate. Qed.
+
 Print Assumptions c16_matches_spec.
+Print Assumptions c16_utf8_parser_never_panics_or_loops.
+Print Assumptions c16_no_input_makes_a_parser_panic_or_loop.
+Print Assumptions c16_fallback_spec.
+Print Assumptions c16_roundtrip_partial.
+Print Assumptions c16_roundtrip_list_partial.
+Print Assumptions c16_fallback_roundtrip_partial.
 Print Assumptions c16_matcherset_spec.
